@@ -26,6 +26,8 @@ SizesLS    == {0, 4}               \* small and 16 KiB+1
 SizesQuick == {0, 1, 3, 4, 5}      \* small, 4 KiB-1, 16 KiB, 16 KiB+1, 64 KiB
 SizesAll   == {0, 1, 2, 3, 4, 5, 6} \* ... 16 KiB-1 ... 1 MiB
 Large      == {2, 3, 4, 5, 6}       \* the line is longer than 16 KiB
+NoFaults   == {}
+FaultsAll  == {1, 2, 3}
 LevelsOne  == {8}
 LevelsTwo  == {0, 8}
 =============================================================================
